@@ -27,7 +27,7 @@ REQUIRED = ["kind.dynamic", "kind.static", "kind.lanelet", "kind.network", "kind
             "op.obstacle.translate_rotate", "op.prediction.translate_rotate", "op.trajectory.translate_rotate",
             "op.prediction=", "op.update_prediction", "op.trajectory=", "op.shape=", "op.update_initial_state",
             "op.network.translate_rotate", "op.add_lanelet", "op.remove_lanelet", "op.scenario.translate_rotate",
-            "op.cycle_elements=", "op.element-edit", "op.time_offset=", "history-model-checked",
+            "op.trajectory.append_state", "op.cycle_elements=", "op.element-edit", "op.time_offset=", "history-model-checked",
             "op.add_lanelet-deferred", "op.remove_lanelet-deferred", "op.lanelet.translate_rotate",
             "network.built-without-index", "op.merge.disjoint", "op.merge.new-then-duplicate", "op.merge.duplicate-first",
             "op.lanelet.convert_to_2d"]
@@ -114,7 +114,7 @@ def run(ctx):
         return bad
 
     DYN_OPS = ["obstacle.translate_rotate", "prediction.translate_rotate", "trajectory.translate_rotate", "prediction=",
-               "update_prediction", "trajectory=", "shape=", "update_initial_state"]
+               "update_prediction", "trajectory=", "shape=", "update_initial_state", "trajectory.append_state"]
 
     def apply_dynamic(ob, op, rng, G, model):
         t = np.array([rng.uniform(-20, 20), rng.uniform(-20, 20)])
@@ -144,6 +144,15 @@ def run(ctx):
             if not tp:
                 return False
             ob.prediction.shape = rng.choice([Rectangle(rng.choice([2.0, 6.0]), 1.0), Circle(rng.choice([0.75, 1.5]))])
+        elif op == "trajectory.append_state":
+            # the trajectory grows in place through its public method (same list object, one state more)
+            if not tp:
+                return False
+            tr_ = ob.prediction.trajectory
+            last = tr_.final_state
+            tr_.append_state(st.KSState(time_step=last.time_step + 1, position=np.array(
+                [float(last.position[0]) + rng.uniform(1, 9), rng.uniform(-5, 5)]), orientation=rng.uniform(-3, 3),
+                velocity=5.0, steering_angle=0.0))
         elif op == "update_initial_state":
             new = st.InitialState(time_step=ob.initial_state.time_step + 1, position=np.array(
                 [rng.uniform(-30, 30), rng.uniform(-30, 30)]), orientation=rng.uniform(-3, 3), velocity=2.0)
